@@ -130,7 +130,7 @@ package proxy
 //@   ensures [one] ((endsSlash(a) != startsSlash(b)) || (!endsSlash(a) && b == "")) ==> result == a + b
 //@   ensures [length] len(result) <= len(a) + len(b) + 1 && len(result) >= len(a) + len(b) - 1
 
-//@ unit proxy_conns props=C05,C17 filter=`proxy\.Proxy\)\.ServeHTTP$|proxy\.newBufferedBody$`
+//@ unit proxy_conns props=C05,C17,C04 filter=`proxy\.Proxy\)\.ServeHTTP$|proxy\.newBufferedBody$`
 //@ func (*ReverseProxy).ServeHTTP
 //@   may_panic
 //@ func createUpstreamRequest
